@@ -281,7 +281,14 @@ def check(ctx, ty, v, node, path='$', depth=0):
         return check_dc(ctx, ty, v, node, path, depth, product, leaf_with_value)
     if k == 'ndarray':
         return   # covered as a sequence of leaves by the generic leaf rule below only at the top
-    if k in ('enum', 'any'):
+    if k == 'enum':
+        # a leaf shows the value that was GIVEN (exact kind), not what the members' value type made of it (`1` is not `1.0`)
+        if is_leaf(node) and not (node.actual is v or deep_typed_eq(node.actual, v)[0]):
+            raise Mismatch('leaf-records-offending-value', f"{path}: enum leaf.actual={short(node.actual, 80)} ({type(node.actual).__name__}) but the value given is "
+                                                           f"{short(v, 80)} ({type(v).__name__})")
+        ctx.count('enum_leaves')
+        return
+    if k == 'any':
         return
     # scalar-like leaves
     if isinstance(node, (P, S)):
